@@ -95,6 +95,10 @@ func init() {
 					return true
 				})
 			}
+		case "intconv":
+			for _, ic := range p.intConversions() {
+				fmt.Printf("%-45s %s %s -> %s  lossy=%v src=%s\n", ssaFuncName(ic.fn), p.Pos(ic.conv.Pos()), ic.from, ic.to, ic.lossy, ic.conv.X)
+			}
 		case "shallow":
 			e := p.newEffects()
 			for _, f := range p.allSSAFuncs() {
